@@ -64,7 +64,7 @@ func histOptsStruct() HistOpts {
 }
 
 func runMuxStruct(c *mon.Ctx, prop string) {
-	n := c.Pick(1600, 12000)
+	n := c.Pick(1600, 200000)
 	for i := int64(0); i < n; i++ {
 		if !c.Mine("histories", i) {
 			continue
